@@ -1,6 +1,7 @@
 // vharness: case generators and drivers of the REAL RedisShake code for the correspondence checks.
-//   vharness gen <Cxx> <seed> <tier>      writes one case per line to stdout
-//   vharness run <Cxx>                    reads cases on stdin, runs the real code, one result line per case
+//
+//	vharness gen <Cxx> <seed> <tier>      writes one case per line to stdout
+//	vharness run <Cxx>                    reads cases on stdin, runs the real code, one result line per case
 package main
 
 import (
@@ -10,6 +11,7 @@ import (
 	"os"
 	"strconv"
 	"strings"
+	"sync"
 )
 
 type prop struct {
@@ -21,6 +23,9 @@ type prop struct {
 	// still printed in input order). The real tool runs several loaders / digests concurrently, so state
 	// shared between supposedly independent instances shows up as a wrong answer here.
 	concurrent int
+	// exclusive (optional, with concurrent): cases that must run alone (e.g. mutated files whose
+	// inflated length fields make the real code allocate gigabytes)
+	exclusive func(fields []string) bool
 }
 
 var props = map[string]*prop{}
@@ -123,10 +128,19 @@ func runConcurrent(p *prop, in *bufio.Reader, out *bufio.Writer) {
 	}
 	close(next)
 	done := make(chan bool)
+	var gate sync.RWMutex
 	for w := 0; w < p.concurrent; w++ {
 		go func() {
 			for i := range next {
-				res[i] = safeRun(p, lines[i])
+				if p.exclusive != nil && p.exclusive(strings.Fields(lines[i])) {
+					gate.Lock()
+					res[i] = safeRun(p, lines[i])
+					gate.Unlock()
+				} else {
+					gate.RLock()
+					res[i] = safeRun(p, lines[i])
+					gate.RUnlock()
+				}
 			}
 			done <- true
 		}()
